@@ -185,7 +185,7 @@ PROPERTIES["C01"] = dict(
         tok("right", False, True, [T], 400, 2400, 16, two=True),
     ],
     level_text="Decides token soundness for the non-regex pattern kinds: if a rule's pattern occurs in a URL at its anchored position, every token the rule can be bucketed under is a token the request probes (real tokenizer on both sides, observed at the hash call site, no model), plus the flag selection of get_tokens, the single-domain bucket key and the scheme token against check_options.",
-    level_note="Partial. Decided: the tokenisation half of C01 (a matching rule is never filed under a key the request does not probe) for plain/left/right/left+right anchored literal patterns <= 5 bytes with 1 context byte (2 in thorough), all masks. Outside: bucket selection and lookup through std HashMap, regex-kind patterns ('*','^','/re/'), verdict combination in Blocker, URLs >= 127 tokens. Known finding (role first-token-left-unanchored) is reported as KNOWN-FINDING, every other violation as VIOLATION.",
+    level_note="Partial. Decided: the tokenisation half of C01 (a matching rule is never filed under a key the request does not probe) for plain/left/right/left+right anchored literal patterns <= 5 bytes with 1 context byte (2 in thorough) and for wildcard patterns a*b (a, b <= 3 bytes) against URLs they match by construction, all masks; which tokens get_tokens offers (pattern, hostname, scheme, single domain); the bucket scan of NetworkFilterList::check on buckets of concrete shape (container mode). Outside: bucket selection and lookup through std HashMap, regex-kind patterns ('*','^','/re/'), verdict combination in Blocker, URLs >= 127 tokens. Known finding (role first-token-left-unanchored) is reported as KNOWN-FINDING, every other violation as VIOLATION.",
     outside=["bucket selection + lookup through HashMap (symbolic key insert+get >15 min)", "regex-kind patterns (regex crate: Kani ICE)", "verdict combination in Blocker::check (>25 min in three container encodings)", "URLs with >= 127 tokens (excluded by the property)"],
     assumptions=["no 64-bit seahash collision (fast_hash is replaced by an injective packing)", "one context byte on each side is without loss of generality for token arguments (a token is a maximal alphanumeric run); thorough tier uses two",
                  "C01.tok uses an ASCII token-character closure; C01.l1c ties it to the real is_allowed_filter on ASCII; C01.gt (thorough) uses the real predicate"],
@@ -337,7 +337,7 @@ PROPERTIES["C08"] = dict(
              "pattern AnyOf(2 x 1 symbolic byte)", [("c0", "u8"), ("c1", "u8")], "c08_rule", asserts="the pattern part survives unchanged", cuts=V0_CUT),
     ],
     level_text="Decides field-by-field fidelity of the hand-written rule mapping engine-rule -> wire struct -> engine-rule for arbitrary rule values (all masks, every optional field).",
-    level_note="Partial. Decided: the two rule-level From impls of data_format/v0.rs. Outside: msgpack byte codec (rmp-serde), list-level and cosmetic-DB mappings (iterate std HashMaps: one-entry round trip no result in 15 min), query-level equality. Known finding: modifier_option survives only under the redirect/csp bit (removeparam rules lose their parameter; role modifier-option-only-kept-for-redirect-and-csp).",
+    level_note="Partial. Decided: the two rule-level From impls of data_format/v0.rs, and that the write-side and read-side wire structs (per rule and top-level format) list the same fields in the same order (the msgpack encoding is positional). Outside: msgpack byte codec (rmp-serde), list-level and cosmetic-DB mappings (iterate std HashMaps: one-entry round trip no result in 15 min), query-level equality. Known finding: modifier_option survives only under the redirect/csp bit (removeparam rules lose their parameter; role modifier-option-only-kept-for-redirect-and-csp).",
     outside=["msgpack byte codec (rmp-serde)", "list-level mapping and cosmetic DB conversion (std HashMap iteration)", "query-level equality (needs the engine)"],
     assumptions=["rmp-serde round-trips each field value faithfully"],
 )
@@ -366,7 +366,7 @@ PROPERTIES["C10"] = dict(
              asserts="the matcher returns (no unreachable!/unwrap panic) for every mask", panic_free=True, stubs=STD_REGEX_STUBS),
     ],
     level_text="Decides that the header/version dispatch in front of the msgpack decoder cannot panic for any buffer up to the bound, and that a decoded rule value with any of the 2^32 masks and absent hostname cannot panic the matcher.",
-    level_note="Partial. Decided: data_format::DeserializeFormat::deserialize dispatch for every buffer <= 11 bytes (16 thorough) with the rmp-serde body decoder stubbed to Err; check_pattern/check_options on rule values with arbitrary mask and no hostname. Outside: rmp-serde decode of corrupted bodies, rule values with hostname/pattern strings (str::contains >20 min), atomicity beyond 'error returns before any assignment' (read).",
+    level_note="Partial. Decided: data_format::DeserializeFormat::deserialize dispatch for every buffer <= 11 bytes (16 thorough) with the rmp-serde body decoder stubbed to Err; check_pattern/check_options on rule values with arbitrary mask and no hostname; Engine::deserialize leaves the enabled tags, the options and the rule lists unchanged whenever it returns Err (every buffer <= 8 bytes, body decoder a failing black box, container mode). Outside: rmp-serde decode of corrupted bodies, rule values with hostname/pattern strings (str::contains >20 min), atomicity beyond 'error returns before any assignment' (read).",
     outside=["decode of corrupted bodies (rmp-serde)", "rule values with hostname/pattern strings", "atomicity beyond 'error returns before any assignment'", "allocation bounds"],
     assumptions=["the v0 body decoder either returns Err or a value; it is stubbed to Err"],
 )
